@@ -17,6 +17,7 @@ from . import vg, facts as F, helpers as H, idioms
 from .terms import mk, tag, all_nodes
 
 INF = math.inf
+MAXF = 1.7976931348623157e308
 
 def f64v(t):
     return struct.unpack("<d", struct.pack("<Q", t[2]))[0]
@@ -54,10 +55,17 @@ class Facts(object):
         self.ptypes = ptypes
         self.memo = {}
         self.notin = {}         # switch operand -> values excluded by the default arm
+        self.fclass = {}        # f64 term -> FpCategory discriminant known on the path
         for c, v in list(known.items()):
             if type(v) is tuple:
                 if v and v[0] == "notin":
                     self.notin[c] = set(v[1])
+                continue
+            if tag(c) == "discr" and tag(c[1]) == "call" and c[1][1] == "core::f64::<impl f64>::classify" and len(c[1]) == 3 and type(v) is int:
+                # FpCategory: Nan 0, Infinite 1, Zero 2, Subnormal 3, Normal 4
+                self.fclass[c[1][2]] = v
+                if v in (2, 3, 4):
+                    self.restrict(c[1][2], Iv(-MAXF, MAXF, False))
                 continue
             self.add(c, bool(v)) if tag(c) in ("cmp", "call", "not") else None
 
@@ -79,6 +87,17 @@ class Facts(object):
                 self.restrict(c[2], Iv(-INF, INF, False))
             elif n == "core::num::<impl i32>::is_negative":
                 self.restrict(c[2], Iv(-INF, -1) if val else Iv(0, INF))
+            elif n == "TwoFloat::is_valid" and val and len(c) == 3:
+                # a valid value has finite words (is_valid = both finite and no_overlap: C07 / R17)
+                for i in (0, 1):
+                    self.restrict(mk("field", c[2], i), Iv(-MAXF, MAXF, False))
+            elif n.startswith("core::ops::RangeInclusive::<Idx>::contains<f64,TwoFloat>") and val and len(c) == 4 \
+                    and tag(c[2]) == "call" and c[2][1].startswith("core::ops::RangeInclusive::<Idx>::new<f64>") and len(c[2]) == 4:
+                # L <= x && x <= U for a TwoFloat x and f64 bounds holds only for a valid x whose high word lies in [L, U]
+                # (the mixed comparisons order by the high word first: C06 / R12)
+                lo = self.bounds(c[2][2]); hi = self.bounds(c[2][3])
+                if not lo.nan and not hi.nan:
+                    self.restrict(mk("field", c[3], 0), Iv(lo.lo, hi.hi, False))
             return
         if tg != "cmp":
             return
@@ -152,6 +171,10 @@ class Facts(object):
             if t[1] in vg.INT_BITS:
                 v = vg.to_signed(t[1], t[2]); return Iv(v, v)
             return Iv(t[2], t[2])
+        if tg == "discr" and tag(t[1]) == "call" and t[1][1] == "core::cmp::impls::<impl core::cmp::PartialOrd for f64>::partial_cmp" and len(t[1]) == 4:
+            # Option<Ordering>: None 0, Some 1; two numbers are always comparable
+            a = self.bounds(t[1][2]); b = self.bounds(t[1][3])
+            return Iv(1, 1) if not (a.nan or b.nan) else Iv(0, 1)
         if tg == "index" and tag(t[1]) == "carray":
             # an element of a constant integer table at an unknown index: between the smallest and the largest entry
             m = re.match(r"^\[(\w+); (\d+)\]$", t[1][1])
@@ -188,6 +211,10 @@ class Facts(object):
             if ty not in vg.INT_BITS:
                 return Iv(-INF, INF)
             lo, hi = trange(ty)
+            x = self._exponent_field_of(t)
+            if x is not None and x in self.fclass:
+                # the biased exponent of a number of known category
+                return {4: Iv(1, 2046), 3: Iv(0, 0), 2: Iv(0, 0)}.get(self.fclass[x], Iv(2047, 2047))
             if op == "neg":
                 a = self.bounds(t[3]); r = Iv(-a.hi, -a.lo)
             else:
@@ -249,6 +276,16 @@ class Facts(object):
                 return Iv(0, INF)
             return Iv(-INF, INF, True)
         return Iv(-INF, INF, True)
+
+    @staticmethod
+    def _exponent_field_of(t):
+        """x when t is (to_bits(x) >> 52) & 0x7ff"""
+        if tag(t) == "i" and t[1] == "bitand" and t[2] == "u64":
+            for sh, m in ((t[3], t[4]), (t[4], t[3])):
+                if tag(m) == "const" and m[2] == 0x7ff and tag(sh) == "i" and sh[1] == "shr" and tag(sh[4]) == "const" and sh[4][2] == 52 \
+                        and tag(sh[3]) == "call" and sh[3][1] == "core::f64::<impl f64>::to_bits" and len(sh[3]) == 3:
+                    return sh[3][2]
+        return None
 
     def _iarith(self, op, a, b, ty):
         if op == "add":
@@ -328,6 +365,13 @@ class Facts(object):
                 a = self.bounds(c[2])
                 if a.hi < 0: return True
                 if a.lo >= 0: return False
+            if c[1].startswith("core::ops::RangeInclusive::<Idx>::contains<") and len(c) == 4 and tag(c[2]) == "call" \
+                    and c[2][1].startswith("core::ops::RangeInclusive::<Idx>::new<") and len(c[2]) == 4:
+                m = re.match(r"^core::ops::RangeInclusive::<Idx>::contains<(\w+),(\w+)>$", c[1])
+                if m and m.group(1) == m.group(2) and m.group(1) in vg.INT_BITS:
+                    lo = self.bounds(c[2][2]); hi = self.bounds(c[2][3]); x = self.bounds(c[3])
+                    if x.lo >= lo.hi and x.hi <= hi.lo: return True
+                    if x.hi < lo.lo or x.lo > hi.hi: return False
             return None
         if tg == "i" and c[1].endswith("_ovf"):
             op, ty = c[1][:-4], c[2]
